@@ -112,8 +112,11 @@ class World:
         self.pool.append(e)
         return e
 
+    live = None     # optional set of pool indices the generators may pick from (current versions of named objects)
+
     def indices(self, kind, pred=None):
-        return [i for i, e in enumerate(self.pool) if e.kind == kind and (pred is None or pred(e))]
+        return [i for i, e in enumerate(self.pool) if e.kind == kind and (pred is None or pred(e))
+                and (self.live is None or i in self.live)]
 
     # base contents helpers on views
     def base(self, cview):
